@@ -194,3 +194,63 @@ func hasTagHostileRune(names []string) bool {
 	}
 	return false
 }
+
+// requiredPunctuatedNames (C04, C11): required members whose names contain characters that mean something to a Go format
+// string, a template or a struct tag (`cpu%`, `%s`, `a%b`, `100%`, `{{.}}`, `$1`, `a b`, `a.b`, `x-y`, `#`), at the
+// top level, nested, in array items, in an allOf branch and in an anyOf branch (inline or by $ref).  Documents: complete;
+// each required key removed; each required key replaced by its %-doubled / look-alike spelling.
+func requiredPunctuatedNames(stream string, onlyBranches bool) []*core.PCase {
+	var pcs []*core.PCase
+	sets := [][]string{{"cpu%", "host"}, {"%s", "100%"}, {"a%b", "a%%b"}, {"%d%v", "x"}, {"{{.}}", "$1"}, {"a b", "a.b"}, {"x-y", "#"}, {"rate%", "name"}}
+	for _, set := range sets {
+		obj := func() sgen.M {
+			props := sgen.M{}
+			for _, n := range set {
+				props[n] = sgen.M{"type": "integer"}
+			}
+			return sgen.M{"type": "object", "properties": props, "required": toAnyS(set)}
+		}
+		full := M{}
+		for i, n := range set {
+			full[n] = 5 + i
+		}
+		var vals []any
+		vals = append(vals, sgen.DeepCopy(full))
+		for _, n := range set {
+			d := sgen.DeepCopy(full).(M)
+			delete(d, n)
+			vals = append(vals, d)
+			// the look-alike key instead of the real one
+			e := sgen.DeepCopy(d).(M)
+			e[strings.ReplaceAll(n, "%", "%%")+"%"] = 1
+			vals = append(vals, e)
+		}
+		type pos struct {
+			name   string
+			schema sgen.M
+			wrap   func(v any) any
+		}
+		other := sgen.M{"type": "object", "properties": sgen.M{"zz": sgen.M{"type": "boolean"}}, "required": []any{"zz"}}
+		positions := []pos{
+			{"allOf-inline", sgen.M{"type": "object", "properties": sgen.M{"p": sgen.M{"allOf": []any{obj(), sgen.DeepCopy(other)}}}}, func(v any) any { m := sgen.DeepCopy(v).(M); m["zz"] = true; return M{"p": m} }},
+			{"allOf-ref", sgen.M{"type": "object", "$defs": sgen.M{"D": obj()}, "properties": sgen.M{"p": sgen.M{"allOf": []any{sgen.M{"$ref": "#/$defs/D"}, sgen.DeepCopy(other)}}}}, func(v any) any { m := sgen.DeepCopy(v).(M); m["zz"] = true; return M{"p": m} }},
+			{"anyOf-inline", sgen.M{"type": "object", "properties": sgen.M{"p": sgen.M{"anyOf": []any{obj(), sgen.DeepCopy(other)}}}}, func(v any) any { return M{"p": v} }},
+			{"anyOf-ref", sgen.M{"type": "object", "$defs": sgen.M{"D": obj()}, "properties": sgen.M{"p": sgen.M{"anyOf": []any{sgen.M{"$ref": "#/$defs/D"}, sgen.DeepCopy(other)}}}}, func(v any) any { return M{"p": v} }},
+		}
+		if !onlyBranches {
+			positions = append(positions,
+				pos{"top", obj(), func(v any) any { return v }},
+				pos{"nested", sgen.M{"type": "object", "properties": sgen.M{"o": obj()}}, func(v any) any { return M{"o": v} }},
+				pos{"array-items", sgen.M{"type": "object", "properties": sgen.M{"a": sgen.M{"type": "array", "items": obj()}}}, func(v any) any { return M{"a": []any{sgen.DeepCopy(full), v}} }},
+				pos{"definition", sgen.M{"type": "object", "$defs": sgen.M{"D": obj()}, "properties": sgen.M{"d": sgen.M{"$ref": "#/$defs/D"}}}, func(v any) any { return M{"d": v} }})
+		}
+		for _, p := range positions {
+			var docs []any
+			for _, v := range vals {
+				docs = append(docs, p.wrap(v))
+			}
+			pcs = append(pcs, baseCase(stream, p.schema, docs, strings.Join(set, " "), p.name))
+		}
+	}
+	return pcs
+}
